@@ -48,13 +48,27 @@ func pruneExternals() {
 func installExternals() {
 	externals["(*sync.Once).Do"] = func(fr *frame, args []value) value {
 		p := args[0].(*value)
+		if loadBarrierOn {
+			if doneOnceCall == nil {
+				doneOnceCall = map[*value]bool{}
+			}
+			doneOnceCall[p] = true
+		}
 		done := (*p).(structure)[0].(structure)
 		if done[1].(uint32) != 0 {
 			return nil
 		}
 		done[1] = uint32(1)
 		onceExtent++
-		defer func() { onceExtent-- }()
+		if guardOn {
+			onceStack = append(onceStack, onceFrame{p, isGlobalCell(fr.i, p)})
+		}
+		defer func() {
+			onceExtent--
+			if n := len(onceStack); n > 0 && onceStack[n-1].p == p {
+				onceStack = onceStack[:n-1]
+			}
+		}()
 		call(fr.i, fr.caller, 0, args[1], nil)
 		return nil
 	}
@@ -370,6 +384,11 @@ func installExternals() {
 		n := freezeReachable0(fr.i, roots, "github.com/yuin/goldmark")
 		guardOn = true
 		X.st.Reach["frozen-cells"] = n
+		return nil
+	})
+	vp("NewCall", func(fr *frame, args []value) value {
+		doneOnceCall = map[*value]bool{}
+		loadBarrierOn = true
 		return nil
 	})
 	vp("Unfreeze", func(fr *frame, args []value) value {
